@@ -15,4 +15,5 @@ for id in "$@"; do
   echo "RESULT $NAME $id rc=$rc keys=[$keys] first=$(echo "$out" | grep -m1 -A1 '^VIOLATION' | tail -1 | cut -c1-220)"
 done
 git -C /repo worktree remove --force $W; git -C /repo worktree prune
-rm -f $VROOT/bin/*._tmp_sweep_${NAME}* $VROOT/harness/go._tmp_sweep_${NAME}*
+TAG=$(echo "$W" | tr -c 'A-Za-z0-9' '_')
+rm -f $VROOT/bin/*.${TAG}* $VROOT/bin/*${TAG} $VROOT/harness/go.${TAG}.mod $VROOT/harness/go.${TAG}.sum
